@@ -166,14 +166,17 @@ var plans = map[string]Plan{
 		},
 	},
 	"C11": {
-		Pkg: "c11",
+		Pkg:   "c11",
+		Tools: []string{"bondmachine"},
 		Runs: []Run{
 			{Test: "^TestProps$/^machine$", Checks: checks(400, 8000), Shards: shards(2, 4)},
 			{Test: "^TestProps$/^bondmachine$", Checks: checks(250, 5000), Shards: shards(3, 8)},
 			{Test: "^TestProps$/^handshake$", Checks: checks(400, 7000), Shards: shards(2, 4)},
 			{Test: "^TestSweep$", NoRapid: true, Shards: shards(1, 1)},
+			{Test: "^TestProps$/^cli_edit$", Checks: checks(25, 600), Shards: shards(2, 8)},
 		},
 		Assumptions: []string{
+			"cli_edit drives the real bondmachine binary, one edit per invocation on a file, and compares the file with the same edits applied in memory",
 			"load = the CLI sequence json.Marshal(Jsoner()) / json.Unmarshal / Dejsoner / Init; a loud refusal to load is an acceptable outcome, a silent drop is not",
 			"nil slice = empty slice; opcodes compared by name, type and registered identity; caches CpID/SharedHDLOps/Tag exempt only when a machine saved after Write_verilog is compared with a copy that has not been through it",
 			"HDL regeneration on a sampled share, flavour iverilog, empty simbox; machines with an fxp opcode never go through HDL (the generator reads /tmp/fxpcode and calls log.Fatal when absent); barriers are attached and vtextmem boxes cover the attached processors (HDL preconditions, C18's business)",
@@ -244,6 +247,24 @@ var plans = map[string]Plan{
 			"machines are built through the public API and a JSON round trip as bondmachine -create-verilog does; flavour iverilog, empty simbox, no board extra modules; Write_verilog panics and tool refusals (flopoco, fxp files absent) are counted as excluded",
 			"a diagnostic whose signature <class>:<module-kind>:<identifier> is recorded as an open finding is filtered; a machine with only recorded diagnostics is counted as excluded; any unrecorded signature is a violation. A recorded syntax error can hide further diagnostics of the same module",
 			"R>=1, O>=1; vtextmem strings carry one box per processor",
+		},
+	},
+	"C16": {
+		Pkg:   "c16",
+		Tools: []string{"basm", "bondgo", "neuralbond", "bmqsim"},
+		Runs: []Run{
+			{Test: "^TestProps$/^basm_sources$", Checks: checks(200, 4000), Shards: shards(8, 16)},
+			{Test: "^TestProps$/^basm_fragments$", Checks: checks(30, 600), Shards: shards(8, 16), Timeout: tmo(15*time.Minute, 90*time.Minute)},
+			{Test: "^TestProps$/^neuralbond$", Checks: checks(16, 150), Shards: shards(2, 4)},
+			{Test: "^TestProps$/^bmqsim$", Checks: checks(8, 40), Shards: shards(2, 4), Timeout: tmo(15*time.Minute, 90*time.Minute)},
+			{Test: "^TestProps$/^bondgo$", Checks: checks(40, 500), Shards: shards(6, 16)},
+			{Test: "^TestProps$/^unfittable$", Checks: checks(50, 600), Shards: shards(6, 8)},
+		},
+		Assumptions: []string{
+			"the validator wf() is written from the statement: word width and alphabet, opcode field, opcode list sorted/duplicate-free, 2^R/N/M/2^O/2^L adequate for everything the program (decoded with each opcode's own Disassembler) and the source mention, jump targets within the ROM contents, Rsize equal, ConstraintCheck, bond-graph predicate of C10",
+			"adequacy only, never minimality; user-given romsize:/ramsize: are respected as given",
+			"a refusal of a fittable source (unknown register/port, operand out of range, no assemblable alternative) is a violation in the basm entries; bondgo hangs/crashes are C12's subject and counted as excluded",
+			"ports >= 255 and unparsable/overflowing register indexes are the unfittable register/port kinds (r256 gives R=9 and is well formed)",
 		},
 	},
 }
